@@ -39,6 +39,10 @@ func init() {
 		"context.WithValue":              modelCtxWithValue,
 		"(*net/http.Request).Context":    modelReqContext,
 		"(*net/http.Request).WithContext": modelReqWithContext,
+		"(*github.com/patrickmn/go-cache.cache).Get":    modelCacheGet,
+		"(*github.com/patrickmn/go-cache.cache).Set":    modelCacheSet,
+		"(*github.com/patrickmn/go-cache.cache).Delete": modelCacheDelete,
+		"github.com/patrickmn/go-cache.New":             modelCacheNew,
 	}
 	ifaceModels = map[string]modelFn{
 		"context.Context.Value": modelCtxValue,
@@ -56,6 +60,11 @@ var pureFuncs = map[string]bool{
 	"encoding/base64.(*Encoding).EncodeToString": true, "(*encoding/base64.Encoding).EncodeToString": true,
 	"time.Duration.String": true, "(time.Time).Format": true, "(time.Time).Add": true,
 	"encoding/hex.EncodeToString": true,
+	"(*github.com/m7913d/go-ntlm/ntlm.PayloadStruct).String": true,
+	"(net/http.Header).Get": true,
+	"(*net/http.Request).BasicAuth": true,
+	"(*net/url.URL).Query": true,
+	"(net/url.Values).Get": true,
 }
 
 var noEffect = map[string]bool{ // effect-free but non-deterministic
@@ -545,4 +554,47 @@ func modelReqWithContext(x *Exec, fr *Frame, st *State, args []Val, instr ssa.In
 	x.heapWrite(st, "http.Request.ctx", SIface, r, "", args[1].L[0])
 	x.heapWrite(st, "http.Request.copyOf", SRef, r, "", args[0].L[0])
 	return []Val{{T: sig.Results().At(0).Type(), L: []string{r}}}
+}
+
+// ---------- go-cache: a functional map key -> interface per cache object ----------
+// Get may report "not found" at any time (expiry); found implies the value
+// stored by the last Set under the same key.
+
+func modelCacheSet(x *Exec, fr *Frame, st *State, args []Val, instr ssa.Instruction, sig *types.Signature) []Val {
+	c, k, v := args[0].L[0], args[1].L[0], args[2].L[0]
+	x.safetyOblige(fr, st, "nil", instr, "", nonNilTerm(args[0]))
+	x.heapWrite(st, "map:Str:gocache:has", SBool, c, k, "true")
+	x.heapWrite(st, "map:Str:gocache:val", SIface, c, k, v)
+	x.heapWrite(st, "gocache.lastSetTTL", SBV64, c, "", args[3].L[0])
+	return nil
+}
+
+func modelCacheGet(x *Exec, fr *Frame, st *State, args []Val, instr ssa.Instruction, sig *types.Signature) []Val {
+	c, k := args[0].L[0], args[1].L[0]
+	x.safetyOblige(fr, st, "nil", instr, "", nonNilTerm(args[0]))
+	has := x.heapRead(st, "map:Str:gocache:has", SBool, c, k)
+	val := x.heapRead(st, "map:Str:gocache:val", SIface, c, k)
+	found := x.smt.Fresh("cache.found", SBool)
+	x.smt.Assert(implies(found, has))
+	return []Val{{T: sig.Results().At(0).Type(), L: []string{ite(found, val, "inil")}}, {T: types.Typ[types.Bool], L: []string{found}}}
+}
+
+func modelCacheDelete(x *Exec, fr *Frame, st *State, args []Val, instr ssa.Instruction, sig *types.Signature) []Val {
+	c, k := args[0].L[0], args[1].L[0]
+	x.safetyOblige(fr, st, "nil", instr, "", nonNilTerm(args[0]))
+	x.heapWrite(st, "map:Str:gocache:has", SBool, c, k, "false")
+	return nil
+}
+
+func modelCacheNew(x *Exec, fr *Frame, st *State, args []Val, instr ssa.Instruction, sig *types.Signature) []Val {
+	outer := x.allocRef(st, "gocache")
+	inner := x.allocRef(st, "gocache.inner")
+	x.heapWrite(st, "patrickmn_go-cache.Cache.cache", SRef, outer, "", inner)
+	x.regHeap("map:Str:gocache:has", SBool, SStr)
+	a := x.heapArr(st, "map:Str:gocache:has")
+	c := x.smt.Fresh("H.gocache", x.arraySort("map:Str:gocache:has"))
+	x.smt.Assert(eq(c, store(a, inner, "((as const (Array Str Bool)) false)")))
+	st.heap["map:Str:gocache:has"] = c
+	x.heapWrite(st, "gocache.defaultTTL", SBV64, inner, "", args[0].L[0])
+	return []Val{{T: sig.Results().At(0).Type(), L: []string{outer}}}
 }
